@@ -32,6 +32,55 @@ macro "ndnb" : tactic =>
       | (rw [kPc_notDnb] at hdnb; simp at hdnb; done)
       | (have hdnb2 := holdsU_of_isDnb hdnb; simp_all)))
 
+/-- a thread outside barrier mode takes `n` more units (dispatch_apply's width reservation) -/
+theorem take_units {W : Nat} {sh : Sh} {t : Tid} {pc pc' : Pc} (g : G W sh) (l : L sh t pc) (n : Nat)
+    (hnB : sh.dq.B = false)
+    (hb' : holdsB pc' = holdsB pc) (hu' : holdsU pc' = holdsU pc) (hn' : unitsOf pc' = unitsOf pc + n)
+    (hs : ∀ w k, pc' ≠ .dbwSignal w k) (hd : isDnb pc' = true → isDnb pc = true) :
+    Post W sh { sh with dq := { sh.dq with u := sh.dq.u + n }, holders := List.replicate n t ++ sh.holders } t pc' := by
+  have hc := l.cnt
+  refine ⟨⟨?_, ?_, ?_, ?_, g.nodup, g.xsig⟩, ⟨?_, ?_, ?_, ?_, ?_⟩,
+    others_keep rfl rfl (by intro u hu; rfl) rfl (by intro u hu; simp [count_replicate_ne n t u sh.holders hu])⟩
+  · have := g.gW; simp [hnB] at this ⊢; omega
+  · intro hb; simp [hnB] at hb
+  · intro w hw; exact g.sig w hw
+  · intro w u hw; exact g.xf w u hw
+  · intro h; exact l.ownB (hb' ▸ h)
+  · intro h; exact l.ownU (hu' ▸ h)
+  · simp only [count_replicate_self, hn']; omega
+  · intro w k e; exact absurd e (hs w k)
+  · intro h; exact l.npb (hd h)
+
+/-- the width reservation of dispatch_apply from inside a running item -/
+theorem step_apply_reserve {W : Nat} {sh : Sh} {t : Tid} {i : ItemId} {a : After} {op : Op} {sh' : Sh} {pc' : Pc}
+    (g : G W sh) (l : L sh t (.running i a)) (h : (sh', pc') ∈ applyReserve W sh t i a op) : Post W sh sh' t pc' := by
+  unfold applyReserve at h
+  cases op with
+  | apply k =>
+    simp only at h
+    split at h
+    · simp at h
+    · split at h
+      · simp at h
+      · rename_i hav
+        split at h
+        · simp at h
+        · simp only [List.mem_singleton, Prod.mk.injEq] at h
+          obtain ⟨rfl, rfl⟩ := h
+          -- some width is available, hence the lane is not in barrier mode
+          have hnB : sh.dq.B = false := by
+            cases hb : sh.dq.B with
+            | false => rfl
+            | true =>
+              have := g.gW; simp [hb] at this
+              have h2 := (g.gB hb)
+              simp [h2.1, h2.2.1, h2.2.2] at this
+              omega
+          exact take_units g l _ hnB rfl rfl (by simp [unitsOf]) (by simp) (by simp [isDnb])
+  | async _ _ => simp at h
+  | sync _ _ => simp at h
+  | worker => simp at h
+
 set_option maxHeartbeats 4000000 in
 theorem step_client {W : Nat} (hW : 1 ≤ W) {sh : Sh} {t : Tid} {pc : Pc} {op : Op} {sh' : Sh} {pc' : Pc}
     (g : G W sh) (l : L sh t pc) (h : (sh', pc') ∈ step W sh t pc op)
